@@ -1,0 +1,8 @@
+//go:build !verif
+
+// Package verifhook provides named yield points for the verification harness.
+// Without the "verif" build tag every point is an empty, inlinable function.
+package verifhook
+
+// Point is a no-op unless built with -tags verif.
+func Point(point, key string) {}
